@@ -69,7 +69,7 @@ def main(path):
             from checks import crash
             runner = crash.Runner(build, sc)
             s = r.get("kill_before") or r.get("syscall")
-            inj = ("%s:signal=SIGKILL:when=%d" % (s["sc"], s["n"])) if "kill_before" in r else ("%s:error=%s:when=%d" % (s["sc"], r["fault"], s["n"]))
+            inj = ("kill:%d" % s["n"]) if "kill_before" in r else ("err:%d:%s" % (s["n"], r["fault"]))
             x = runner.run("replay", r["scenario"], tuple(r["mode"]), inject=inj)
             print("exit:", x["rc"], "| stderr:", x["stderr"][-300:])
             for tid, dp in crash.thread_dirs(x["final"]).items():
